@@ -1,5 +1,6 @@
 import PonyVerif.Drive.Util
 import PonyVerif.Model.Serial
+import PonyVerif.Model.BagWalk
 namespace PonyVerif.Drive.C31
 open Lean PonyVerif.Drive PonyVerif.Model.Serial
 
@@ -28,5 +29,16 @@ def handle (j : Json) : Except String Json := do
   | "dictkey" =>
       let parts ← strList j "raw"
       pure (Json.mkObj [("ok", jKey (bagDictKey parts))])
+  | "bagwalk" =>
+      -- rel: list (index = object) of lists of objects; ro: list of bools; given: list of objects; reply: [[object, full?], …] sorted by object
+      let rel ← (← argArr j "rel").mapM (fun r => match r with
+        | .arr a => a.toList.mapM (fun x => (fromJson? x : Except String Nat))
+        | _ => throw "rel: lists expected")
+      let ro ← (← argArr j "ro").mapM (fun x => (fromJson? x : Except String Bool))
+      let given ← (← argArr j "given").mapM (fun x => (fromJson? x : Except String Nat))
+      let d := PonyVerif.Model.BagWalk.bagWalk (fun o => rel.getD o []) (fun o => ro.getD o true) given
+      let objs := List.range rel.length
+      pure (Json.mkObj [("ok", .arr (objs.filterMap (fun o => (PonyVerif.Model.BagWalk.lookup d o).map
+        (fun f => Json.arr #[.num (JsonNumber.fromNat o), .bool f]))).toArray)])
   | _ => throw s!"unknown op {op}"
 end PonyVerif.Drive.C31
